@@ -316,8 +316,18 @@ def corrupt(lexemes, starts, tape, n, late=False, ml=False):
             # a letter or digit of another script inside an identifier (a name typed on another keyboard layout, a
             # pasted superscript, a full-width digit): the dialect's identifiers are ASCII, the file is valid UTF-8.
             # (not after `=`: a default-value expression may hold any characters)
+            # (nor anywhere after an `=` of the same statement -- that includes the `=` inside `operator==`,
+            #  `operator+=` ...: when the operator rule fails, `T operator== ( anything ) const ;` is read as a
+            #  variable named `operator` with the initialiser `= ( anything ) const`, see section 6 of DESIGN.md)
+            def _after_eq(k):
+                j = k - 1
+                while j >= 0 and lex[j] not in (";", "{", "}"):
+                    if "=" in lex[j]:
+                        return True
+                    j -= 1
+                return False
             idx = [k for k, t in enumerate(lex) if t.isascii() and t.replace("_", "a").isalnum() and
-                   not t[0].isdigit() and (k == 0 or lex[k - 1] != "=")]
+                   not t[0].isdigit() and not _after_eq(k)]
             if idx and pristine[0]:
                 k = idx[tape.choose(len(idx), "which-identifier")]
                 ch = tape.pick(FOREIGN_ALNUM, "foreign-char")
